@@ -58,6 +58,14 @@ def gen_hist_case(rng, algs=("DE", "NSDE", "GDE3", "GDE3MNN", "GDE32NN", "GDE3P"
         cfg["cf"] = "cd"
     if n_ieq and rng.random() < 0.3:      # objective magnitudes that dwarf the violations
         cfg["fscale"] = rng.choice([1e9, 1e18]); cfg["gscale"] = rng.choice([1e-9, 1.0]); cfg["shift"] = rng.choice([0.0, 0.5]); cfg["digits"] = 2
+    if n_ieq and rng.random() < 0.35:     # feasible region is small: typically nothing feasible at first, feasible members appear during the run
+        zs = [[rng.random() for _ in range(n_var)] for _ in range(300)]
+        g = sorted(max(sum(z[k] * cfg["B"][c][k] for k in range(n_var)) for c in range(n_ieq)) for z in zs)
+        cfg["shift"] = -g[int(len(g) * rng.choice([0.03, 0.08, 0.15]))]
+        cfg["n_gen"] = max(n_gen, 6); cfg["late_feasible"] = True
+        cfg.pop("fscale", None); cfg.pop("gscale", None)
+        if rng.random() < 0.4:
+            cfg["sel"] = "ranked"
     if alg in ("GA", "EA"):
         cfg["n_off"] = rng.choice([ps, max(2, ps // 2), 3])
         cfg["n_init"] = rng.choice([ps, ps, max(4, ps - 3), max(4, ps // 2)])
@@ -141,6 +149,7 @@ def run_history(cfg, hook=None):
                 data[i] = ind_data(reg.objs[i], cfg["n_ieq"])
         cands = []
         rank_before = {i: reg.objs[i].get("rank") for i in pre + inf_ids}
+        rank_before.update(dict(zip(pre, pre_rank)))          # members: as left by the previous generation (mating must not write attributes)
         with surv.OracleRec(surv_op) as orec:
             orig_do = type(surv_op).do
             holder = {}
